@@ -2,7 +2,7 @@
     position->leaf map [Nodes], the hash->position map [CachedLeaves], [NumLeaves] and [TotalRows].
     The maps are association lists (first binding wins; the harness dumps Go maps, whose keys are
     unique).  Functions and their order of operations follow the Go methods of the same name. *)
-From Utreexo Require Export Base.Hash Model.Utils Model.Verify.
+From Utreexo Require Export Base.Hash Model.Utils Model.UtilsFast Model.Verify.
 Set Implicit Arguments.
 Open Scope N_scope.
 
@@ -65,7 +65,7 @@ Section MapRead.
     | None => None
     | Some orig =>
         let targets := sortN orig in
-        let '(proofPos, _) := ProofPositions targets (ms_n m) (ms_total m) in
+        let '(proofPos, _) := ProofPositions_fast targets (ms_n m) (ms_total m) in
         match all_some (map (fun p => match nodes_get (ms_nodes m) p with
                                       | Some (h, _) => Some h | None => None end) proofPos) with
         | None => None
@@ -91,7 +91,7 @@ Section MapRead.
     | _ =>
         let tr := TreeRows (ms_n m) in
         let targets := sortN origTargets in
-        let '(pp, _) := ProofPositions targets (ms_n m) tr in
+        let '(pp, _) := ProofPositions_fast targets (ms_n m) tr in
         let pp' := if tr =? ms_total m then pp else translatePositions pp tr (ms_total m) in
         let missing := filter (fun p => match nodes_get (ms_nodes m) p with Some _ => false | None => true end) pp' in
         if tr =? ms_total m then missing
@@ -120,7 +120,7 @@ Section MapRead.
     : outcome (list nat) :=
     let tr := TreeRows (ms_n m) in
     let targets := sortN origTargets in
-    let '(pp, _) := ProofPositions targets (ms_n m) tr in
+    let '(pp, _) := ProofPositions_fast targets (ms_n m) tr in
     let pp' := if tr =? ms_total m then pp else translatePositions pp tr (ms_total m) in
     match fill_proof (ms_nodes m) pp' proofHashes with
     | None => Err
